@@ -188,6 +188,13 @@ impl ZoneSurfFilter {
                         {
                             values.push(encode_i64(f.floor() as i64));
                             values.push(encode_i64(f.ceil() as i64));
+                        } else if let Some(f) = val.as_f64().filter(|f| {
+                            val.as_i64().is_none()
+                                && !(*f >= i64::MIN as f64 && *f < i64::MAX as f64)
+                        }) {
+                            // Outside the i64 range encode_value leaves the i64 lane (raw u64 /
+                            // f64 bits); every in-range bound orders against the end of the lane.
+                            values.push(encode_i64(if f > 0.0 { i64::MAX } else { i64::MIN }));
                         } else if let Some(bytes) = encode_value(val) {
                             values.push(bytes);
                         }
